@@ -19,6 +19,11 @@ sys.path.insert(0, HERE)
 import overlay
 import families
 
+# CBMC tracks constants in byte-array-typed heap objects only up to this many bytes (default 64):
+# every mini-moka heap object larger than that (EntryInfo, Inner, sync deque nodes) otherwise looks
+# symbolic to the symbolic executor and all configuration branches stay live (DESIGN.md 12).
+CBMC_ARGS = ["--cbmc-args", "--max-field-sensitivity-array-size", "4096"]
+
 TAG_RE = re.compile(r"^((?:C\d\d)(?:,C\d\d)*):")
 
 def log(*a):
@@ -70,6 +75,7 @@ def run_kani(src, target, harnesses, jobs, timeout_s, mem_gb, out_json, solver=N
         cmd += ["--solver", solver]
     for h in harnesses:
         cmd += ["--harness", h]
+    cmd += CBMC_ARGS   # must be last
     t0 = time.time()
     with open(logf, "w") as lf:
         p = subprocess.Popen(cmd, cwd=src, env=env_offline(), stdout=lf, stderr=subprocess.STDOUT,
@@ -210,7 +216,7 @@ def concrete_playback(src, target, harness, timeout_s, mem_gb, logf, want=None):
     """Ask Kani for the concrete assignment of a failing harness; returns generated test source."""
     cmd = ["cargo", "kani", "--target-dir", target, "-Z", "stubbing", "-Z", "unstable-options",
            "-Z", "concrete-playback", "--concrete-playback=print", "--harness-timeout", f"{timeout_s}s",
-           "--harness", harness, "--exact"]
+           "--harness", harness, "--exact"] + CBMC_ARGS
     with open(logf, "w") as lf:
         subprocess.run(cmd, cwd=src, env=env_offline(), stdout=lf, stderr=subprocess.STDOUT,
                        preexec_fn=limit_mem(mem_gb), timeout=timeout_s + 600)
